@@ -64,11 +64,15 @@ impl<T> OneShotShared<T> {
   }
 
   pub(super) fn decrement_senders(&self) {
+    #[cfg(excsn_fibre_verif)]
+    crate::verif::point("oneshot", 0);
     if self.sender_count.fetch_sub(1, Ordering::AcqRel) == 1 {
       // This was the last sender.
       // If state is still EMPTY (meaning no value was ever successfully sent and committed),
       // then the channel is now disconnected from the sender side.
       // Try to transition EMPTY -> CLOSED.
+      #[cfg(excsn_fibre_verif)]
+      crate::verif::point("oneshot", 0);
       if self
         .state
         .compare_exchange(
@@ -88,6 +92,8 @@ impl<T> OneShotShared<T> {
       else if self.state.load(Ordering::Acquire) == STATE_SENT
         && self.receiver_dropped.load(Ordering::Acquire)
       {
+        #[cfg(excsn_fibre_verif)]
+        crate::verif::point("oneshot", 0);
         if self
           .state
           .compare_exchange(STATE_SENT, STATE_TAKEN, Ordering::AcqRel, Ordering::Relaxed)
@@ -112,9 +118,13 @@ impl<T> OneShotShared<T> {
   }
 
   pub(super) fn mark_receiver_dropped(&self) {
+    #[cfg(excsn_fibre_verif)]
+    crate::verif::point("oneshot", 0);
     self.receiver_dropped.store(true, Ordering::Release);
     // If no value has been sent and no senders are in the process of sending,
     // transition to CLOSED.
+    #[cfg(excsn_fibre_verif)]
+    crate::verif::point("oneshot", 0);
     if self
       .state
       .compare_exchange(
@@ -135,9 +145,13 @@ impl<T> OneShotShared<T> {
 
   pub(super) fn send(&self, value: T) -> Result<(), TrySendError<T>> {
     // Fast path check for receiver dropped or channel already terminally closed or value sent/taken.
+    #[cfg(excsn_fibre_verif)]
+    crate::verif::point("oneshot", 0);
     if self.receiver_dropped.load(Ordering::Acquire) {
       return Err(TrySendError::Closed(value));
     }
+    #[cfg(excsn_fibre_verif)]
+    crate::verif::point("oneshot", 0);
     let current_state = self.state.load(Ordering::Acquire);
     if current_state >= STATE_SENT {
       // SENT, TAKEN, or CLOSED
@@ -145,6 +159,8 @@ impl<T> OneShotShared<T> {
     }
 
     // Attempt to transition from EMPTY to WRITING. Only one sender will succeed.
+    #[cfg(excsn_fibre_verif)]
+    crate::verif::point("oneshot", 0);
     match self.state.compare_exchange(
       STATE_EMPTY,
       STATE_WRITING,
@@ -154,6 +170,8 @@ impl<T> OneShotShared<T> {
       Ok(_) => {
         // Successfully Acquired WRITING state
         // Double check receiver_dropped *after* acquiring WRITING lock.
+        #[cfg(excsn_fibre_verif)]
+        crate::verif::point("oneshot", 0);
         if self.receiver_dropped.load(Ordering::Acquire) {
           // Receiver dropped between initial check and acquiring write lock.
           // Revert state to EMPTY (or CLOSED if no other senders).
@@ -201,10 +219,14 @@ impl<T> OneShotShared<T> {
   }
 
   pub(super) fn try_recv(&self) -> Result<T, TryRecvError> {
+    #[cfg(excsn_fibre_verif)]
+    crate::verif::point("oneshot", 0);
     let current_state = self.state.load(Ordering::Acquire);
 
     if current_state == STATE_SENT {
       // Attempt to transition from SENT to TAKEN. Only one receiver poll will succeed.
+      #[cfg(excsn_fibre_verif)]
+      crate::verif::point("oneshot", 0);
       if self
         .state
         .compare_exchange(
@@ -230,6 +252,8 @@ impl<T> OneShotShared<T> {
       } else {
         // CAS failed: state changed from SENT to something else (likely TAKEN by another poll, or CLOSED).
         // Re-evaluate current state.
+        #[cfg(excsn_fibre_verif)]
+        crate::verif::point("oneshot", 0);
         let new_state_after_cas_fail = self.state.load(Ordering::Acquire);
         if new_state_after_cas_fail == STATE_TAKEN {
           Err(TryRecvError::Empty) // Already taken by this logical receiver, now appears empty
@@ -248,6 +272,8 @@ impl<T> OneShotShared<T> {
     } else {
       // EMPTY or WRITING
       // If empty and all senders are gone, it's disconnected.
+      #[cfg(excsn_fibre_verif)]
+      crate::verif::point("oneshot", 0);
       if current_state == STATE_EMPTY && self.sender_count.load(Ordering::Acquire) == 0 {
         // Attempt to transition to CLOSED if not already done by last sender drop
         self
@@ -277,6 +303,8 @@ impl<T> OneShotShared<T> {
           // Or state was SENT but CAS to TAKEN failed (another poll is racing).
 
           // If already terminally closed or taken by another concurrent poll, future should resolve.
+          #[cfg(excsn_fibre_verif)]
+          crate::verif::point("oneshot", 0);
           let current_state = self.state.load(Ordering::Acquire);
           if current_state == STATE_TAKEN || current_state == STATE_CLOSED {
             // If taken, it means another poll instance of *this same receiver* got it.
@@ -289,6 +317,8 @@ impl<T> OneShotShared<T> {
             // This path indicates a race, safer to register and re-poll.
           }
           // Check again if all senders dropped AFTER deciding it's Empty
+          #[cfg(excsn_fibre_verif)]
+          crate::verif::point("oneshot", 0);
           if current_state == STATE_EMPTY && self.sender_count.load(Ordering::Acquire) == 0 {
             self
               .state
